@@ -396,6 +396,14 @@ func spice(g *Gen, p *Program) {
 		return
 	}
 	c := &p.Cfg
+	// another dimension nobody tests together with the rest: the separator
+	if c.Separator == "" && c.Stack != "test" && c.Stack != "both" && g.Bool(15) {
+		c.Separator = pick(g, "_", "::", "-", "/")
+		if c.Flags == nil {
+			c.Flags = map[string]int{}
+		}
+		c.Flags["separator"] = 1
+	}
 	if c.Sanitize != nil || (c.Stack != "plain" && c.Stack != "cached") || !g.Bool(12) {
 		return
 	}
